@@ -230,7 +230,16 @@ MinSizes == /\ TagsSize(<<>>) = 4
             /\ \E x \in FilterCases : x.nids = 65535 /\ x.nauthors = 65536
 ASSUME MinSizes
 
-Emit == PrintT(<<"CASE", ToJson([kind |-> X.kind, tags |-> X.tags, content |-> X.content,
+(* Numerals of an event text.  The kind member denotes a u16: a numeral that does not fit is refused by the parser, never  *)
+(* reduced modulo 65 536 (C19: "refused rather than silently truncated"); both sides of the boundary are probed, and the   *)
+(* five-digit numerals above it separately from the six- and seven-digit ones (a digit-count bound is not a range check).  *)
+KindProbes == <<0, 9, 65535, 65536, 65537, 65539, 65540, 70000, 99999, 100000, 131071, 131072, 1000000>>
+NumeralOutcome(v, limit) == IF v <= limit THEN "ok" ELSE "err"
+KProbes == [j \in 1..Len(KindProbes) |-> [v |-> KindProbes[j], exp |-> NumeralOutcome(KindProbes[j], U16MAX)]]
+ASSUME /\ \E j \in 1..Len(KProbes) : KProbes[j].exp = "ok" /\ KProbes[j].v = U16MAX
+       /\ \E j \in 1..Len(KProbes) : KProbes[j].exp = "err" /\ KProbes[j].v = U16MAX + 1
+
+Emit == PrintT(<<"CASE", ToJson([kind |-> X.kind, kprobes |-> KProbes, tags |-> X.tags, content |-> X.content,
                                  nids |-> X.nids, nauthors |-> X.nauthors, nkinds |-> X.nkinds, opt |-> X.opt,
                                  size |-> Size(X), tsize |-> TagsSize(X.tags),
                                  fits |-> Representable(X), tagsfit |-> TagsRepresentable(X.tags), why |-> Why(X),
